@@ -43,7 +43,8 @@ func (dm *DMap) loadCurrentAtomicInt(e *env) (int, int64, error) {
 	}
 	nr, err := util.ParseInt(entry.Value(), 10, 64)
 	if err != nil {
-		return 0, 0, nil
+		// The stored value is not an integer. Do not treat it as zero, Incr/Decr would overwrite it.
+		return 0, 0, err
 	}
 	return int(nr), entry.TTL(), nil
 }
